@@ -57,10 +57,10 @@ def kelvin(v, u, f):
     return v * mnum.rz(Fraction(10) ** f * s) + mnum.rz(z)
 
 def spell_case(m, x, src, tgt):
+    I = harness.interp_for('dev')
     s = ul.conc_entries(m, src); t = ul.conc_entries(m, tgt); xv = rt.mval(m, x)
-    st, tt = ul.spell_compound(s), ul.spell_compound(t)
-    c = {'src': s, 'tgt': t, 'x': str(xv), 'op': 'none'}
-    if st is not None and tt is not None: c.update({'op': 'query', 'text': f'{rt.frac_str(xv)} {st} to {tt}'})
+    c = ul.factor_case(I, t, s, xv)
+    c.update({'src': ul.names_list(s), 'tgt': ul.names_list(t), 'x': str(xv), 'text': f'{rt.frac_str(xv)} {ul.spell_compound(s)} to {ul.spell_compound(t)}'})
     return c
 
 def run_job(job, res, prefixes, budget, deadline):
@@ -160,13 +160,11 @@ def to_kelvin(v, u, f):
     s, z = size_zero(u); return v * Fraction(10) ** f * s + z
 def confirm(c, outs):
     case = c['case']
-    if case.get('op') != 'query': return False, 'not replayable'
     for prof, o in outs.items():
         if 'panic' in o: return True, f'{prof}: panic {o["panic"]}'
-        rs = o.get('ok')
-        if not isinstance(rs, list) or len(rs) != 1: return True, f'{prof}: unexpected {o}'
-        r = rs[0]
         if 'chain' in case:
+            rs = o.get('ok')
+            r = rs[0] if isinstance(rs, list) and rs else {'err': str(o)}
             if 'err' in r: return True, f'{prof}: chain refused: {r["err"]}'
             names = case['chain']; inv = {ul.spell(s): s for s in SCALES}
             x = Fraction(case['x'])
@@ -174,18 +172,20 @@ def confirm(c, outs):
             got = rt.parse_frac(r['ok']['value'])
             if got != want: return True, f'{prof}: chain ends at {got}, direct conversion gives {want}'
             continue
+        r = o.get('ok') or {}
         src = [tuple(e) for e in case['src']]; tgt = [tuple(e) for e in case['tgt']]
         alone = len(src) == 1 and src[0][1] == 1 and len(tgt) == 1 and tgt[0][1] == 1
         x = Fraction(case['x'])
         if alone:
-            if 'err' in r: return True, f'{prof}: refused: {r["err"]}'
+            if r.get('refused') or not r.get('commensurable'): return True, f'{prof}: refused: {r}'
             want = (to_kelvin(x, src[0][0], src[0][2]) - size_zero(tgt[0][0])[1]) / (size_zero(tgt[0][0])[0] * Fraction(10) ** tgt[0][2])
-            got = rt.parse_frac(r['ok']['value'])
+            got = rt.parse_frac(r['value'])
             if got != want: return True, f'{prof}: {got} instead of {want}'
         else:
-            if 'err' in r: continue
+            if r.get('refused'): continue
+            if not r.get('commensurable'): return True, f'{prof}: reported as incommensurable'
             want = x * U.si_factor(src) / U.si_factor(tgt)
-            got = rt.parse_frac(r['ok']['value'])
+            got = rt.parse_frac(r['value'])
             if got != want: return True, f'{prof}: {got}; as an interval it is {want} (the zero point was added to a compound/powered unit)'
     return False, 'real build agrees with the oracle'
 
